@@ -166,7 +166,7 @@ let spec_case (line : string) : string =
       let slice_hash p l = fnv64 (slice h.filesz file_byte p l) in
       let off_t_max_ok p l = int_of_n_sat p < max_int / 8 && int_of_n_sat l < max_int / 8 in
       let pols = ref [2] in                 (* policies possibly in force *)
-      let outstanding = ref 0 in            (* references held by handles, leaked ones included *)
+      let outstanding = ref 0 in            (* references held by handles *)
       let mmfail_seen = ref false in
       let fce_live = Hashtbl.create 16 and nfce = ref 0 in
       let chunk_held = Hashtbl.create 16 and nchunk = ref 0 in
@@ -209,7 +209,6 @@ let spec_case (line : string) : string =
                       status_rules ~tag:"G" ~beyond:(pi >= pceil_i) ~own_fail:(ones mf + ones rf > 0)
                         ~own_entries:0 (String.sub g 1 (String.length g - 1))
                   | _ -> fail (where ^ "unexpected token"));
-                 outstanding := !outstanding + ones mf;
                  if ones mf > 0 then mmfail_seen := true;
                  after_get ()
              | PPut i ->
@@ -224,7 +223,6 @@ let spec_case (line : string) : string =
                         ~own_fail:(ones mf + ones rf > 0) ~own_entries:0
                         (String.sub g 1 (String.length g - 1))
                   | _ -> fail (where ^ "unexpected token"));
-                 outstanding := !outstanding + ones mf;
                  if ones mf > 0 then mmfail_seen := true;
                  if int_of_n_sat l > 0 then after_get ()
              | PChunk (hold, p, l, mf, rf, al) ->
@@ -249,7 +247,6 @@ let spec_case (line : string) : string =
                         ~own_entries:(if est > 0 then est - 1 else 0)
                         (String.sub g 1 (String.length g - 1))
                   | _ -> fail (where ^ "unexpected token"));
-                 outstanding := !outstanding + ones mf;
                  if ones mf > 0 then mmfail_seen := true;
                  if li > 0 then after_get ()
              | PChunkPut i ->
